@@ -240,6 +240,7 @@ def render_all(case):
     from flatland.out.markup import Generator, Tag
     root = build(case)
     gen = Generator(case["markup"], **mc.kwargs_of(case["settings"]))
+    pool = mc.TagPool(gen)
     results = []
     names = []
     for r in case["renders"]:
@@ -253,11 +254,8 @@ def render_all(case):
         kwargs = mc.kwargs_of(r["kwargs"])
         res = {"el": el, "err": None, "out": None, "parsed": None, "posted": None}
         try:
-            out = getattr(gen, r["tag"])(el, **kwargs) if r["tag"] in ("form", "input", "textarea", "button", "select", "option", "label") \
-                else gen.tag(r["tag"], el, **kwargs)
-            if isinstance(out, Tag):
-                out = out()
-            res["out"] = str(out)
+            out, _ = pool.render(dict(r, via="prop" if r["tag"] in mc.PROP_TAGS else "tag"), el, kwargs)
+            res["out"] = out
         except AssertionError:
             raise
         except CaseTimeout:
@@ -429,7 +427,50 @@ def _mk_renders(rng, tree, form_mode):
     return renders
 
 
+NONVOID = ("textarea", "button", "select", "option", "label")
+
+
+def _hold_tags(rng, renders):
+    """render through HELD Tag objects: one object per tag name for the whole case (ta = gen.textarea; ta(a); ta(b); ...),
+    called or used as open() + .contents + close().  A Tag must not carry anything from one rendering to the next."""
+    ids = {}
+    for r in renders:
+        if rng.random() < 0.85:
+            r["handle"] = ids.setdefault(r["tag"], len(ids))
+            if r["tag"] in NONVOID and rng.random() < 0.5:
+                r["how"] = "openclose"
+    return renders
+
+
+def _held_sweep_case(rng):
+    """a list of text fields, filled and empty ones mixed, every member rendered as a textarea (or button) through ONE
+    held Tag object: the order filled-then-empty is where a body left over from the previous rendering would show"""
+    n = rng.randint(2, 6)
+    us = [rng.choice(["", "", rng.choice(TEXTS), mc.hostile(rng, 5)]) for _ in range(n)]
+    if all(us) or not any(us):
+        us[rng.randrange(n)] = "" if all(us) else "filled"
+    member = rng.choice([None, "note"])
+    leaf = lambda u: {"t": "leaf", "name": member, "py": "str", "u": u}
+    tree = {"t": "dict", "name": rng.choice(["post", None]), "fields": [
+        {"t": "list", "name": "notes", "members": [leaf(u) for u in us], "template": leaf("")}]}
+    tag = rng.choice(["textarea", "textarea", "textarea", "button"])
+    form_mode = rng.random() < 0.5 and not any(u.startswith("\n") for u in us)
+    renders = []
+    for i in range(n):
+        r = {"sel": [0, i], "tag": tag, "kwargs": [], "role": "value", "within": None, "form": form_mode, "handle": 0,
+             "how": rng.choice(["call", "openclose"])}
+        if tag == "textarea" and rng.random() < 0.15:
+            # an explicit body on one of them (author markup): the next one must not inherit it either
+            r["kwargs"] = [["contents", S("explicit body")]]
+            r["role"] = "named"
+        renders.append(r)
+    return {"markup": rng.choice(["xml", "xhtml", "html"]), "settings": [], "tree": tree, "renders": renders,
+            "form_mode": form_mode and all(r["role"] == "value" for r in renders)}
+
+
 def _rand_case(rng):
+    if rng.random() < 0.06:
+        return _held_sweep_case(rng)
     form_mode = rng.random() < 0.35
     root_name = rng.choice([None, "f", "form", rng.choice(SAFE_NAMES)] if form_mode else [None, "", "f", "form", rng.choice(NAMES)])
     tree = _rand_tree(rng, rng.choice([0, 1, 2, 2, 3]), root_name, form_mode)
@@ -444,7 +485,13 @@ def _rand_case(rng):
             settings.append(["domid_format", S(rng.choice(["%s", "id_%s", "f_%s_x"]))])
         if rng.random() < 0.1:
             settings.append(["ordered_attributes", B(False)])
+        if rng.random() < 0.15:
+            # a counter that runs across all renderings of the case (one generator)
+            settings.append(["auto_tabindex", B(True)])
+            settings.append(["tabindex", I(rng.choice([1, 5, 100]))])
     renders = _mk_renders(rng, tree, form_mode)
+    if rng.random() < 0.3:
+        renders = _hold_tags(rng, renders)
     return {"markup": rng.choice(["xml", "xhtml", "html"]), "settings": settings, "tree": strip_templates(tree),
             "renders": renders, "form_mode": form_mode}
 
@@ -606,6 +653,15 @@ class C12(Property):
                                rd([0], "option", [["value", S("y")], ["selected", S("selected")]], "option", within=4, lit="y"),
                                rd([0], "input", [["type", S("text")], ["value", S("stale")], ["auto_value", B(True)]], "value")],
                          extra_fields=[boolf, boolx, arr]))
+        # seeded mutation C12-tag-contents-leak-on-reuse: ONE held Tag object renders a filled, then an empty member
+        held = {"markup": "xhtml", "settings": [], "form_mode": True,
+                "tree": {"t": "dict", "name": "post", "fields": [{"t": "list", "name": "notes", "members": [
+                    {"t": "leaf", "name": "note", "py": "str", "u": "first note"}, {"t": "leaf", "name": "note", "py": "str", "u": ""},
+                    {"t": "leaf", "name": "note", "py": "str", "u": "third"}, {"t": "leaf", "name": "note", "py": "str", "u": ""}],
+                    "template": {"t": "leaf", "name": "note", "py": "str", "u": ""}}]},
+                "renders": [dict(rd([0, i], "textarea", [], "value", handle=0, how=h), form=True)
+                            for i, h in enumerate(["call", "call", "openclose", "openclose"])]}
+        cases.append(held)
         # MultiValue: members are flat pairs of their own
         cases.append(one("x", [rd([1], "input", [["type", S("checkbox")], ["value", S("q")]], "check", lit="q"),
                                rd([1], "input", [["type", S("text")]], "value")],
@@ -859,7 +915,10 @@ class C12(Property):
                 continue
             c = copy.deepcopy(case)
             del c["renders"][i]
+            # a form without one of its controls no longer posts the whole element: keep the per-control clauses only
+            c["form_mode"] = False
             for r in c["renders"]:
+                r["form"] = False
                 for key in ("pair", "within"):
                     if r.get(key) is not None and r[key] > i:
                         r[key] -= 1
@@ -874,6 +933,12 @@ class C12(Property):
             for r in c["renders"]:
                 r["form"] = False
             yield c
+        for i, r in enumerate(rs):
+            if r.get("handle") is not None or r.get("how", "call") != "call":
+                c = copy.deepcopy(case)
+                c["renders"][i].pop("handle", None)
+                c["renders"][i].pop("how", None)
+                yield c
         if case["markup"] != "xhtml":
             c = copy.deepcopy(case)
             c["markup"] = "xhtml"
